@@ -513,6 +513,7 @@ package graphql
 // Response paths: Path() builds a NEW slice on every call (never storage shared with another field context or
 // with an error that was already recorded), so later siblings cannot rewrite an earlier position's path.
 //@ trusted GetFieldContext(ctx) (fc)
+//@   nopanic
 //@   pure
 //@ trusted context.WithValue(parent, key, val) (ctx)
 //@   ensures ctx != nil
@@ -525,6 +526,16 @@ package graphql
 //@   modifies nothing
 //@ func WithFieldContext [C01]
 //@   requires rc != nil
+//@   nopanic
 //@   ensures res0 != nil
 //@   ensures calls(GetFieldContext) == 1 && calls(WithValue) == 1
 //@   modifies FieldContext.Parent
+
+// ---------------------------------------------------------------- runtime hooks used by generated code (C04)
+// (assumption: the user's error presenter and recover function do not panic themselves)
+//@ trusted (*OperationContext).Error(ctx, err)
+//@   nopanic
+//@ trusted (*OperationContext).Errorf(ctx, format, args)
+//@   nopanic
+//@ trusted (*OperationContext).Recover(ctx, err) (e)
+//@   nopanic
